@@ -135,3 +135,142 @@ def build(repo, spec_dir, canary=False):
                   'preconditions of the elimination loop (square matrix of size state_count, acyclic transition matrix, `rl` solves the initial equations) are what the unverified first loop of Expression::from and Dfa::from must deliver',
                   'union / concatenate / new_literal are used through the contracts that unit expr verifies', 'derived Clone/PartialEq structural; glang and star uninterpreted']
     return b
+
+# ---------------------------------------------------------------------------------------------------------------------
+MATRIX_STANDINS = r'''
+// ---- opaque automaton (dfa.rs) as seen by Expression::from: assumed contracts of the four accessors it calls
+pub struct Dfa { pub x: u8 }
+pub struct EdgeRef { pub w: Grapheme, pub t: State }
+impl EdgeRef {
+    pub fn weight(&self) -> (r: &Grapheme) ensures *r == self.w { &self.w }
+    pub fn target(&self) -> (r: State) ensures r == self.t { self.t }
+}
+pub open spec fn out_edges_ok(es: Seq<EdgeRef>, d: Dfa, s: State) -> bool {
+    &&& forall|k: int| 0 <= k < es.len() ==> d_edges(d).contains_key((s, (#[trigger] es[k]).t)) && d_edges(d)[(s, es[k].t)] == es[k].w
+    &&& forall|t: State| #[trigger] d_edges(d).contains_key((s, t)) ==> exists|k: int| 0 <= k < es.len() && (#[trigger] es[k]).t == t
+    &&& forall|p: int, q: int| 0 <= p < q < es.len() ==> (#[trigger] es[p]).t != (#[trigger] es[q]).t      // no parallel edges: grex addresses an edge by its end points
+}
+impl Dfa {
+    #[verifier::external_body] pub fn states_in_depth_first_order(&self) -> (r: Vec<State>) ensures r@ == d_states(*self), states_ok(*self) { unimplemented!() }
+    // ASSUMED: every state is reachable from the start state (true for automata built by Dfa::from), so node_count() is the length of the DFS order
+    #[verifier::external_body] pub fn state_count(&self) -> (r: usize) ensures r == d_states(*self).len() { unimplemented!() }
+    #[verifier::external_body] pub fn is_final_state(&self, state: State) -> (r: bool) ensures r == d_final(*self, state) { unimplemented!() }
+    #[verifier::external_body] pub fn outgoing_edges(&self, state: State) -> (r: Vec<EdgeRef>) ensures out_edges_ok(r@, *self, state) { unimplemented!() }
+}
+#[verifier::external_body] pub fn vx_position(v: &Vec<State>, x: State) -> (r: Option<usize>)
+    ensures r is Some <==> v@.contains(x), r is Some ==> r->Some_0 < v@.len() && v@[r->Some_0 as int] == x { unimplemented!() }
+impl<T> Array1<Option<T>> {
+    #[verifier::external_body] pub fn default(n: usize) -> (r: Array1<Option<T>>) ensures r@.len() == n, forall|i: int| 0 <= i < n ==> (#[trigger] r@[i]) is None { unimplemented!() }
+}
+impl<T> Array2<Option<T>> {
+    #[verifier::external_body] pub fn default(shape: (usize, usize)) -> (r: Array2<Option<T>>)
+        ensures r@.len() == shape.0, forall|i: int| 0 <= i < shape.0 ==> (#[trigger] r@[i]).len() == shape.1, forall|i: int, j: int| 0 <= i < shape.0 && 0 <= j < shape.1 ==> (#[trigger] r@[i][j]) is None { unimplemented!() }
+}
+pub open spec fn seen_target(es: Seq<EdgeRef>, k: int, t: State) -> bool { exists|q: int| 0 <= q < k && 0 <= q < es.len() && (#[trigger] es[q]).t == t }
+pub open spec fn row_partial(row: Row, d: Dfa, i: int, n: int, es: Seq<EdgeRef>, k: int) -> bool {
+    forall|j: int| 0 <= j < n ==> (if seen_target(es, k, d_states(d)[j]) && d_edges(d).contains_key((d_states(d)[i], d_states(d)[j])) { olang(#[trigger] row[j]) == edge_lang(d, i, j) && row[j] is Some } else { row[j] is None })
+}
+'''
+
+def build_matrix(repo, spec_dir, canary=False):
+    """first loop of Expression::from: the transition matrix and final vector encode the automaton"""
+    b = Builder('matrix', repo, canary)
+    b.emit('#![feature(allocator_api)]\nuse vstd::prelude::*;\nuse vstd::std_specs::cmp::*;\nuse std::collections::BTreeSet;\nverus! {')
+    for f, h in [('config.rs', r'^pub struct RegExpConfig \{'), ('quantifier.rs', r'^pub enum Quantifier \{'), ('substring.rs', r'^pub enum Substring \{'),
+                 ('grapheme.rs', r'^pub struct Grapheme \{'), ('cluster.rs', r"^pub struct GraphemeCluster<'a> \{"), ('expression.rs', r"^pub enum Expression<'a> \{")]:
+        b.type_item(f, h)
+    b.emit(open(spec_dir + '/petgraph_standin.rs').read())
+    b.emit('pub type State = pg::NodeIndex<u32>;')
+    b.emit('pub mod spec {\nuse super::*;')
+    b.emit(open(spec_dir + '/lang.rs').read())
+    b.emit(open(spec_dir + '/elim.rs').read())
+    b.emit(open(spec_dir + '/matrix.rs').read())
+    b.emit('}')
+    b.emit(NDARRAY)
+    b.emit('use spec::*;')
+    b.emit(MATRIX_STANDINS)
+    for lab, fn in [('matrix.row_sum_is_edge_row_sum', 'lemma_row_sum_is_edge_row_sum'), ('matrix.encoded_system_meets_elimination_precondition', 'lemma_encoded_system')]:
+        b.obligations.append((lab, ['C01', 'C02', 'C16']))
+    b.emit('mod code {\nuse super::*;\nuse super::spec::*;')
+    b.emit("impl<'a> GraphemeCluster<'a> {")
+    GC = "^impl<'a> GraphemeCluster<'a> \\{"
+    b.assumed_fn('cluster.rs', 'from', within=GC, ensures=['s@.len() == 0 ==> r.graphemes@.len() == 0'], why='unicode-segmentation; only the empty string is used here')
+    b.assumed_fn('cluster.rs', 'new', within=GC, ensures=['r.graphemes@ == seq![grapheme]'], why='verified in unit expr against exactly this contract')
+    b.emit("}\nimpl<'a> Expression<'a> {")
+    EX = "^impl<'a> Expression<'a> \\{"
+    b.assumed_fn('expression.rs', 'union', within=EX, ensures=[c[1] for c in E.UNION_CLAUSES], why='verified in unit expr against exactly this contract')
+    b.assumed_fn('expression.rs', 'new_literal', within=EX, ensures=[c[1] for c in E.NEW_LITERAL_CLAUSES], why='verified in unit expr against exactly this contract')
+    src = b.src('expression.rs')
+    f, _, _ = X.fn(src, 'from', within=EX)
+    a0 = f.find('let states = dfa.states_in_depth_first_order();')
+    a1 = f.find('for n in (0..state_count).rev() {')
+    if a0 < 0 or a1 < 0: raise X.LostAnchor('expression.rs::from first loop')
+    body = f[a0:a1].rstrip()
+    N = 'state_count as int'
+    D0 = 'dfa'
+    common = ['states@ == d_states(dfa)', 'states_ok(dfa)', 'states@.len() == state_count', 'wf_dims(a@, b@, %s)' % N]
+    done = lambda up: ['forall|r: int, j: int| 0 <= r < %s && 0 <= j < state_count ==> olang(#[trigger] a@[r][j]) == edge_lang(dfa, r, j) && (a@[r][j] is Some ==> d_edges(dfa).contains_key((d_states(dfa)[r], d_states(dfa)[j])))' % up,
+                       'forall|r: int| 0 <= r < %s ==> olang(#[trigger] b@[r]) == fin_lang(dfa, r)' % up]
+    todo = lambda frm: ['forall|r: int, j: int| %s <= r < state_count && 0 <= j < state_count ==> (#[trigger] a@[r][j]) is None' % frm, 'forall|r: int| %s <= r < state_count ==> (#[trigger] b@[r]) is None' % frm]
+    l1 = common + ['0 <= it1.index@ <= state_count'] + [('matrix.rows_encoded@loop1', ['C01', 'C02', 'C16'], ' && '.join('(%s)' % x for x in done('it1.index@')))] + todo('it1.index@')
+    ELS = 'vstd::std_specs::vec::into_iter_elts(it2.snapshot@)'
+    l2 = common + ['i < state_count', '*state == d_states(dfa)[i as int]', 'it2.seq() == %s' % ELS, 'out_edges_ok(%s, dfa, *state)' % ELS, '0 <= it2.index@ <= %s.len()' % ELS,
+                   ' && '.join('(%s)' % x for x in done('i')), ('matrix.final_vector@loop2', ['C01', 'C02', 'C16'], 'olang(b@[i as int]) == fin_lang(dfa, i as int)')] + todo('i + 1') + [
+                   ('matrix.row_partial@loop2', ['C01', 'C02', 'C16'], 'row_partial(a@[i as int], dfa, i as int, %s, %s, it2.index@)' % (N, ELS))]
+    blocks = [(1, 'loop_start', '''            proof { assert(i == it1.index@); }'''),
+              (2, 'loop_before', '''            proof {
+                assert(*state == d_states(dfa)[i as int]);
+                assert forall|j: int| 0 <= j < state_count implies (a@[i as int][j]) is None by { }
+                if d_final(dfa, *state) {
+                    reveal_strlit("");
+                    lemma_lit_empty(Seq::<Grapheme>::empty());
+                    assert(b@[i as int]->Some_0->Literal_0.graphemes@ =~= Seq::<Grapheme>::empty());
+                }
+            }'''),
+              (2, 'loop_start', '''                let ghost a_p = a@; let ghost els = vstd::std_specs::vec::into_iter_elts(it2.snapshot@); let ghost k = it2.index@;
+                proof {
+                    assert(edge == els[k]);
+                    assert(d_edges(dfa).contains_key((*state, edge.t)) && d_edges(dfa)[(*state, edge.t)] == edge.w);
+                    assert(d_states(dfa).contains(*state)) by { assert(d_states(dfa)[i as int] == *state); }
+                    assert(d_states(dfa).contains(edge.t));
+                }'''),
+              (2, 'loop_end', '''                proof {
+                    assert(d_states(dfa)[j as int] == edge.t);
+                    assert(!seen_target(els, k, edge.t)) by { if seen_target(els, k, edge.t) { let q = choose|q: int| 0 <= q < k && 0 <= q < els.len() && (#[trigger] els[q]).t == edge.t; assert(els[q].t != els[k].t); } }
+                    assert(a_p[i as int][j as int] is None);
+                    assert(a@ == a_p.update(i as int, a_p[i as int].update(j as int, vx_tmp)));
+                    assert(edge_lang(dfa, i as int, j as int) == lit_lang(seq![edge.w]));
+                    assert(olang(vx_tmp) =~= edge_lang(dfa, i as int, j as int));
+                    assert forall|t: State| seen_target(els, k + 1, t) <==> (seen_target(els, k, t) || t == edge.t) by {
+                        if seen_target(els, k + 1, t) { let q = choose|q: int| 0 <= q < k + 1 && 0 <= q < els.len() && (#[trigger] els[q]).t == t; if q < k { assert(seen_target(els, k, t)); } }
+                        if seen_target(els, k, t) { let q = choose|q: int| 0 <= q < k && 0 <= q < els.len() && (#[trigger] els[q]).t == t; assert(els[q].t == t && q < k + 1); }
+                        if t == edge.t { assert(els[k].t == t); }
+                    }
+                    assert forall|c: int| 0 <= c < state_count implies (if seen_target(els, k + 1, d_states(dfa)[c]) && d_edges(dfa).contains_key((d_states(dfa)[i as int], d_states(dfa)[c])) { olang(#[trigger] a@[i as int][c]) == edge_lang(dfa, i as int, c) && a@[i as int][c] is Some } else { a@[i as int][c] is None }) by {
+                        if c == j { assert(a@[i as int][c] == vx_tmp); }
+                        else { assert(a@[i as int][c] == a_p[i as int][c]); assert(d_states(dfa)[c] != edge.t) by { if d_states(dfa)[c] == edge.t { assert(d_states(dfa)[c] == d_states(dfa)[j as int]); } } }
+                    }
+                    assert forall|r: int, c: int| 0 <= r < state_count && r != i && 0 <= c < state_count implies a@[r][c] == a_p[r][c] by { assert(a@[r] == a_p[r]); }
+                }'''),
+              (2, 'loop_after', '''            proof {
+                let els = d_states(dfa);
+                assert forall|c: int| 0 <= c < state_count implies olang(#[trigger] a@[i as int][c]) == edge_lang(dfa, i as int, c) && (a@[i as int][c] is Some ==> d_edges(dfa).contains_key((d_states(dfa)[i as int], d_states(dfa)[c]))) by { }
+            }''')]
+    SUB = ('matrix.proof_steps', ['C01', 'C02', 'C16'])
+    blocks = [tuple(bk) + (SUB,) for bk in blocks]
+    def pre(text, log, where):
+        text = D.desugar_enumerate(text, log, where)
+        return D.ndarray_index(text, ['a', 'b'], log, where)
+    b.slice_fn('build_system', "    pub fn build_system(dfa: Dfa, config: &'a RegExpConfig) -> (r: (Array2<Option<Expression<'a>>>, Array1<Option<Expression<'a>>>, usize))",
+               '        ' + body, 'expression.rs::Expression::from statements from `let states = ..` up to the elimination loop', epilogue='        (a, b, state_count)',
+               clauses=[Clause('matrix.encodes_automaton', 'wf_dims(r.0@, r.1@, r.2 as int) && r.2 == d_states(dfa).len() && encodes(r.0@, r.1@, dfa, r.2 as int)', ['C01', 'C02', 'C16'])],
+               props=['C07'], loops={1: l1, 2: l2}, blocks=blocks, pre=pre,
+               extra_rules=[('R19', r'states\.iter\(\)\.position\(\|&it\| it == edge\.target\(\)\)', 'vx_position(&states, edge.target())', 'Iterator::position(closure) on the state list')])
+    b.emit('}\n} // mod code')
+    b.emit(E.TRUSTED_PRELUDE)
+    b.emit(E.eq_impl('Grapheme')); b.emit(E.eq_impl('Quantifier')); b.emit(E.eq_impl("Expression<'a>", "<'a>"))
+    b.emit('} // verus!')
+    b.emit(E.OUTSIDE)
+    b.trusted += ['the automaton is opaque (uninterpreted d_states / d_final / d_edges): states_in_depth_first_order returns the duplicate-free DFS order closed under edges; state_count equals its length (every state reachable: true for Dfa::from); outgoing_edges lists exactly the out-edges with pairwise distinct targets (no parallel edges)',
+                  'ndarray stand-in incl. ::default (all None); Iterator::position; R22 enumerate desugaring']
+    return b
